@@ -27,6 +27,8 @@ func runC06(r *engine.Run) {
 	r.Rule("CLONE-boundary", "see C07: every value a lookup hands out is a Clone() of the stored one - a caller that edits a looked-up value in place must not change what the ancestor block or a sibling fork returns")
 	r.Rule("RET-pair", "the two results of every lookup agree: each return of a Get method is the pair of the next layer's Get, (Clone() of an entry's data, true) or (nil, false)")
 	r.Rule("DOM-found", "the value returned by a lookup in a cache map (lru Get/Peek) is type-asserted only on paths where the lookup's found flag tested true (a miss is a nil interface; asserting it panics)")
+	r.Rule("FRESH-write", "in TransactionCache.Set, BlockCache.Set and BlockCache.setValue every entry stored into the pending map carries in its data field the result of a Clone() call (provenance dataflow over the local entry), never the previous entry's object refreshed in place")
+	r.Rule("DOM-commitall", "inside StateCache.commit's loop over the block's pending map, the next iteration is not reachable without adding the entry to the key's versions map: no write or tombstone of the block is skipped")
 	r.NotDec = append(r.NotDec,
 		"hit ratio after LRU eviction (capacity arithmetic)", "equality with the block-tree oracle for every history")
 	whoReadOnly(r, "WHO-readonly")
@@ -39,6 +41,8 @@ func runC06(r *engine.Run) {
 	capAbsence(r, "CAP-absence")
 	retPair(r, "RET-pair")
 	domFound(r, "DOM-found")
+	freshWrite(r, "FRESH-write")
+	domCommitAll(r, "DOM-commitall")
 	cloneBoundary(r, "C06")
 	if commit := r.Fn("ORDER-publish", pkgSC, "StateCache", "commit"); commit != nil {
 		orderPublish(r, commit)
@@ -936,4 +940,95 @@ func domFound(r *engine.Run, rule string) {
 	if n < 4 {
 		r.Anchor(rule, fmt.Errorf("unresolved anchor: %d asserted lookup results found", n))
 	}
+}
+
+// freshWrite: a write stores a fresh copy of what was written. In Set/setValue
+// every entry stored into the pending map carries, in its data field, the
+// result of Clone() - not the data of the entry that was there before (an
+// in-place refresh through CopyFrom depends on what the old value's CopyFrom
+// does; the tombstone placeholder's CopyFrom copies nothing).
+func freshWrite(r *engine.Run, rule string) {
+	const stale engine.Label = 1 << 41
+	n := 0
+	for _, m := range []struct{ recv, name string }{{"TransactionCache", "Set"}, {"BlockCache", "Set"}, {"BlockCache", "setValue"}} {
+		f := r.Fn(rule, pkgSC, m.recv, m.name)
+		if f == nil {
+			continue
+		}
+		spec := engine.FlowSpec{
+			Param: func(p *ssa.Parameter, i int) engine.Label { return stale },
+			Value: func(v ssa.Value, get func(ssa.Value) engine.Label) (engine.Label, bool) {
+				if c, ok := v.(*ssa.Call); ok {
+					if _, is := engine.IsMethodCall(c, "Clone"); is {
+						return 0, true
+					}
+				}
+				if _, ok := v.(*ssa.Lookup); ok {
+					return stale, true
+				}
+				if ex, ok := v.(*ssa.Extract); ok {
+					if _, ok := ex.Tuple.(*ssa.Lookup); ok {
+						return stale, true
+					}
+				}
+				if c, ok := v.(*ssa.Const); ok && c.IsNil() {
+					return 0, true
+				}
+				return 0, false
+			},
+			HeapLoad: func(ld *ssa.UnOp, base engine.Label) (engine.Label, bool) { return stale, true },
+		}
+		fl := engine.RunFlow(f, spec)
+		o := ord{}
+		engine.Instrs(f, func(in ssa.Instruction) {
+			mu, ok := in.(*ssa.MapUpdate)
+			if !ok {
+				return
+			}
+			if fld := fieldLoadOf(mu.Map); fld == nil || fld.Name() != "cache" {
+				return
+			}
+			n++
+			good := false
+			if ld, isLoad := mu.Value.(*ssa.UnOp); isLoad {
+				if al, isAlloc := engine.AddrRoot(ld.X).(*ssa.Alloc); isAlloc {
+					l, found := fl.CellAt(ld, al, ".data")
+					good = found && l == 0
+				}
+			}
+			r.Check(good, rule, o.next(fn(f)+"|stored data"), r.P.Pos(mu.Pos()), "the stored entry's data is the result of Clone()",
+				"a write stores an entry whose data is not a fresh Clone() of the written value (the previous entry's object is reused): what the key then holds depends on the old value's CopyFrom, and the tombstone placeholder's CopyFrom copies nothing, so a value written after a removal is lost")
+		})
+	}
+	if n < 3 {
+		r.Anchor(rule, fmt.Errorf("unresolved anchor: %d pending-map stores in the write methods", n))
+	}
+}
+
+// domCommitAll: commit publishes every entry of the block: inside the loop over
+// the block's pending map the next iteration is not reachable without adding
+// the entry to the key's versions map.
+func domCommitAll(r *engine.Run, rule string) {
+	f := r.Fn(rule, pkgSC, "StateCache", "commit")
+	if f == nil {
+		return
+	}
+	var add *ssa.Call
+	engine.Instrs(f, func(in ssa.Instruction) {
+		if c, ok := in.(*ssa.Call); ok && extCalleeIs(c, "hashicorp/golang-lru", "Cache", "Add") && !lruCallOnField(c, "Add", "cache") && !lruCallOnField(c, "Add", "hashCache") && inLoopBody(c.Block()) {
+			add = c
+		}
+	})
+	if add == nil {
+		r.Fail(rule, fn(f)+"|publishes every entry", r.P.Pos(f.Pos()), "commit no longer adds the block's entries to the versions maps inside its loop")
+		return
+	}
+	head := loopHeadOf(add.Block())
+	if head == nil {
+		r.Anchor(rule, fmt.Errorf("unresolved anchor: loop head of commit's entry loop"))
+		return
+	}
+	bypass := head != add.Block() && loopBypass(head, add.Block())
+	r.Check(!bypass, rule, fn(f)+"|publishes every entry", r.P.Pos(add.Pos()), "every iteration of commit's loop adds the entry to the key's versions map",
+		"commit can skip an entry of the block (a path to the next iteration bypasses the versions-map Add): a write or a tombstone of the block is not published, so lookups at the block and its descendants walk past it to an older value")
 }
